@@ -132,6 +132,78 @@ def _cursor_after(stmts, state):
     return states
 
 
+
+def _fill_buffer_rows(ctx):
+    """_fill_buffer walked (sa/table.py traces) over the case table
+         mode in {READ, READ_EOF} x buffer {fully consumed, unread bytes left} x decompressor at end-of-stream? x the
+         underlying read returns {nothing, a block}
+    -> [(row dict, outcome, value, visited statements, calls)]"""
+    from ..table import traces, Unknown
+    f = ZF(ctx, "_fill_buffer")
+    g = cfg_of(f)
+    consts = {}
+    for st in ctx.repo.mod(CP).tree.body:
+        if isinstance(st, ast.Assign) and len(st.targets) == 1 and isinstance(st.targets[0], ast.Name) and isinstance(st.value, ast.Constant):
+            consts[st.targets[0].id] = st.value.value
+    reads = sorted({unparse(c, 200) for c in calls_in(f) if call_name(c) == "self._fp.read"})
+    rows = []
+    for mode in ("_MODE_READ", "_MODE_READ_EOF"):
+        for unread in (False, True):
+            for eos in (False, True):
+                for block in (b"", b"BLOCK"):
+                    env = dict(consts)
+                    env.update({"self._mode": consts.get(mode, mode), "self._buffer": b"abcd" if unread else b"", "self._buffer_offset": 1 if unread else 0, "self._decompressor.eof": eos,
+                                "self._decompressor.unused_data": b"", "self._pos": 40, "self._size": -1})
+                    for r_ in reads:
+                        env[str(r_)] = block
+                    try:
+                        walks = traces(g, env, call_args=("self._fp.read", "self._decompressor.decompress"))
+                    except Unknown as e:
+                        raise Undecidable("_fill_buffer: not understood for %s (%s)" % ((mode, unread, eos, block), e))
+                    for (kind, val, visited, calls) in walks:
+                        rows.append(({"mode": mode, "unread": unread, "eos": eos, "block": block}, kind, val, visited, calls))
+    return f, g, rows
+
+
+def _fill_buffer_table(ctx):
+    """the semantic facts of one refill attempt, whatever the shape of the function:
+       finished stream / unread bytes => answered at once, nothing read;  end-of-stream marker or an empty read => the EOF
+       mode is latched, the size recorded, False answered, nothing fed to the decompressor;  a block => fed to decompress."""
+    f, g, rows = _fill_buffer_rows(ctx)
+    def stores(visited, attr):
+        return [a for a in visited if isinstance(a, ast.Assign) and ("self." + attr) in stores_to(a)]
+    for row, kind, val, visited, calls in rows:
+        rd = [c for c in calls if c[0] == "self._fp.read"]
+        dc = [c for c in calls if c[0] == "self._decompressor.decompress"]
+        eofm = [a for a in stores(visited, "_mode") if dotted(a.value) == "_MODE_READ_EOF"]
+        what = "mode=%s, %s, decompressor %s end-of-stream, read() -> %r" % (row["mode"], "unread bytes left" if row["unread"] else "buffer consumed", "at" if row["eos"] else "before", row["block"])
+        if row["mode"] == "_MODE_READ_EOF":
+            if not (kind == "return" and val is False and not rd and not dc):
+                return f, "once at EOF, _fill_buffer must keep answering False without reading (%s): it %s" % (what, "reads again" if rd else "answers %r" % (val,))
+            continue
+        if row["unread"]:
+            if not (kind == "return" and val is True and not rd and not dc and not eofm):
+                return f, "with unread bytes in the buffer _fill_buffer must answer True at once (%s)" % what
+            continue
+        at_end = row["eos"] or row["block"] == b""
+        if at_end:
+            if dc:
+                return dc[0][2], "at the end of the data (%s) the decompressor is still fed" % what
+            if not (kind == "return" and val is False):
+                return f, "at the end of the data (%s) _fill_buffer does not answer False (%s)" % (what, kind)
+            if not eofm:
+                return f, "_fill_buffer answers False without latching the EOF mode (%s): the stream looks still readable, so a reader that retries on empty reads spins forever on a truncated file" % what
+            sz = stores(visited, "_size")
+            if not sz:
+                return f, "at end of file the stream size is recorded as nothing, not the position reached (%s)" % what
+        else:
+            if eofm and not dc:
+                return eofm[0], "the EOF mode is latched although a block was read and the stream has not ended (%s)" % what
+            if not dc or dc[0][1][0] != row["block"]:
+                return (dc[0][2] if dc else f), "the block just read is not what is fed to decompress (%s)" % what
+    return None, len(rows)
+
+
 def progress(ctx):
     # (1) _fill_buffer
     f = ZF(ctx, "_fill_buffer")
@@ -155,6 +227,9 @@ def progress(ctx):
     for d in defs:
         for src in _sources(d.value):
             is_read = isinstance(src, ast.Call) and call_name(src) == "self._fp.read"
+            if isinstance(src, ast.Constant) and src.value == b"":
+                ctx.ok(d, "an empty default block is the 'nothing left' sentinel (it leaves the loop through the emptiness test)")
+                continue
             if is_read:
                 ctx.ok(d, "refill input comes from self._fp.read(...) of the finite underlying file")
                 continue
@@ -290,20 +365,19 @@ def exact(ctx):
 
 def eof_not_data(ctx):
     f = ZF(ctx, "_fill_buffer")
-    hs = [h for t in nodes_of_type(f, ast.Try) for h in t.handlers if handler_catches(h, ["EOFError"])]
-    ctx.need(hs, "_fill_buffer has no EOFError handler")
-    h = hs[0]
-    md = [a for a in h.body if isinstance(a, ast.Assign) and "self._mode" in stores_to(a)]
-    ctx.check(bool(md) and dotted(md[0].value) == "_MODE_READ_EOF", md[0] if md else h, "end of file sets the EOF mode")
-    sz = [a for a in h.body if isinstance(a, ast.Assign) and "self._size" in stores_to(a)]
+    bad_at, msg = _fill_buffer_table(ctx)
+    if bad_at is not None:
+        ctx.bad(bad_at, msg, key="%s::%s._fill_buffer::one refill attempt (case table)" % (CP, Z))
+    else:
+        ctx.ok(f, "one refill attempt over the case table (%d walks): finished / unread => answered at once; end-of-stream or empty read => EOF latched, size recorded, False; a block => decompressed" % msg)
     def size_ok(v):
         # the position reached, or "unknown" (-1: seek-from-end re-scans) - possibly chosen by a conditional expression
         if dotted(v) == "self._pos" or const_value(v) == -1:
             return True
         return isinstance(v, ast.IfExp) and size_ok(v.body) and size_ok(v.orelse)
-    ctx.check(bool(sz) and size_ok(sz[0].value) and not const_value(sz[0].value) == -1, sz[0] if sz else h, "and records the stream size = current position (or leaves it unknown)",
+    sz = [a for a in nodes_of_type(f, ast.Assign) if "self._size" in stores_to(a)]
+    ctx.check(bool(sz) and all(size_ok(a.value) for a in sz) and not all(const_value(a.value) == -1 for a in sz), sz[0] if sz else f, "the stream size recorded at EOF is the current position (or left unknown)",
               "at end of file the stream size is recorded as %s, not the position reached" % (unparse(sz[0].value) if sz else "nothing"))
-    ctx.check(isinstance(h.body[-1], ast.Return) and is_const(h.body[-1].value, False), h, "and reports 'no more data' (never fabricates data)")
     g0 = cfg_of(f)
     mode_sets = [a for a in nodes_of_type(f, ast.Assign) if "self._mode" in stores_to(a) and dotted(a.value) == "_MODE_READ_EOF"]
     for r in [r for r in nodes_of_type(f, ast.Return) if is_const(r.value, False)]:
@@ -311,8 +385,6 @@ def eof_not_data(ctx):
         already = ("self._mode == _MODE_READ_EOF", True) in conds
         ctx.check(already or g0.every_path_to(g0.nodes_of(r), g0.nodes_of_all(mode_sets)), r, "'no more data' is answered only with the EOF mode latched (callers never poll a finished stream again)",
                   "_fill_buffer answers False without latching the EOF mode: the stream looks still readable, so a reader that retries on empty reads spins forever on a truncated file")
-    first = [n for n in f.body if isinstance(n, ast.If) and unparse(n.test) == "self._mode == _MODE_READ_EOF"]
-    ctx.check(bool(first) and isinstance(first[0].body[-1], ast.Return) and is_const(first[0].body[-1].value, False), first[0] if first else f, "once at EOF, _fill_buffer keeps answering False")
     rets = [r for r in nodes_of_type(f, ast.Return) if is_const(r.value, True)]
     g = cfg_of(f)
     lp = _loops(f)
@@ -1101,9 +1173,8 @@ def mode_typestate(ctx):
     ctx.check(None not in vals and len(set(vals)) == 4, cls, "the four mode constants are distinct (%s)" % vals, "mode constants are not pairwise distinct: %s" % vals)
     fb = ZF(ctx, "_fill_buffer")
     g = cfg_of(fb)
-    for a in nodes_of_type(fb, ast.Assign):
-        if "self._mode" in stores_to(a):
-            ctx.check(any(isinstance(x, ast.ExceptHandler) and handler_catches(x, ["EOFError"]) for x in ancestors(a)), a, "READ -> READ_EOF only in the end-of-file handler")
+    bad_at, msg = _fill_buffer_table(ctx)
+    ctx.check(bad_at is None, bad_at or fb, "READ -> READ_EOF only at the end of the data (case table of one refill attempt)", msg if bad_at is not None else "")
     init = ZF(ctx, "__init__")
     gi = cfg_of(init)
     from ..core import cond_holds
